@@ -716,3 +716,636 @@ def correspondence(ctx):
         what, data, res = cs.descr[i]
         ctx.broken("correspondence: Model.Der / Model.KeyCodec differs from the implementation on %s" % what,
                    {"case": repr(data)[:1500], "impl": repr(res)[:300], "expr": cs.exprs[i][:1500]})
+
+
+# ---------------------------------------------------------------------------
+# search: the property predicate on the real implementation
+
+# -- an independent, strict DER encoder / parser (X.690), used as the oracle for the bytes
+
+def d_len(n):
+    if n < 0x80:
+        return bytes([n])
+    s = n.to_bytes((n.bit_length() + 7) // 8, "big")
+    return bytes([0x80 | len(s)]) + s
+
+
+def d_tlv(tag, body):
+    return bytes([tag]) + d_len(len(body)) + body
+
+
+def d_int(v):
+    s = v.to_bytes(v.bit_length() // 8 + 1, "big")      # always a leading sign bit of 0
+    return d_tlv(0x02, s)
+
+
+def d_oid(t):
+    def b128(n):
+        out = [n & 0x7F]
+        n >>= 7
+        while n:
+            out.insert(0, (n & 0x7F) | 0x80)
+            n >>= 7
+        return bytes(out)
+    return d_tlv(0x06, b"".join(b128(x) for x in (40 * t[0] + t[1],) + tuple(t[2:])))
+
+
+def d_parse(b, depth=0):
+    """strict DER parse into [(tag, header_len, content, children-or-None)]; raises ValueError"""
+    out = []
+    i = 0
+    while i < len(b):
+        tag = b[i]
+        if i + 1 >= len(b):
+            raise ValueError("cut in header")
+        l0 = b[i + 1]
+        if l0 < 0x80:
+            n, h = l0, 2
+        else:
+            k = l0 & 0x7F
+            if k == 0 or i + 2 + k > len(b):
+                raise ValueError("bad length")
+            n, h = int.from_bytes(b[i + 2:i + 2 + k], "big"), 2 + k
+            if n < 0x80 or b[i + 2] == 0:
+                raise ValueError("non-minimal length")
+        if i + h + n > len(b):
+            raise ValueError("cut in content")
+        content = b[i + h:i + h + n]
+        kids = None
+        if tag & 0x20:
+            kids = d_parse(content, depth + 1)
+        elif tag == 0x04 and depth < 3 and content[:1] == b"\x30":
+            try:
+                kids = d_parse(content, depth + 1)       # PKCS#8: OCTET STRING wrapping ECPrivateKey
+            except ValueError:
+                kids = None
+        out.append((tag, h, content, kids))
+        i += h + n
+    return out
+
+
+def d_build(nodes):
+    return b"".join(d_tlv(t, d_build(k) if k is not None else c) for t, _, c, k in nodes)
+
+
+def structural_variants(der):
+    """delete / empty / shorten each element of a DER tree, with all enclosing lengths made consistent"""
+    try:
+        tree = d_parse(der)
+    except ValueError:
+        return
+    paths = []
+
+    def walk(nodes, path):
+        for i, (t, h, c, k) in enumerate(nodes):
+            paths.append(path + (i,))
+            if k is not None:
+                walk(k, path + (i,))
+    walk(tree, ())
+
+    def edit(nodes, path, fn):
+        nodes = list(nodes)
+        i = path[0]
+        t, h, c, k = nodes[i]
+        if len(path) == 1:
+            rep = fn(nodes[i])
+            nodes[i:i + 1] = rep
+        else:
+            nodes[i] = (t, h, c, edit(k, path[1:], fn))
+        return nodes
+    for p in paths:
+        yield "delete%s" % (p,), d_build(edit(tree, p, lambda n: []))
+        yield "empty%s" % (p,), d_build(edit(tree, p, lambda n: [(n[0], n[1], b"", None)]))
+        yield "cut%s" % (p,), d_build(edit(tree, p, lambda n: [(n[0], n[1], (d_build(n[3]) if n[3] is not None else n[2])[:-1], None)]))
+        yield "dup%s" % (p,), d_build(edit(tree, p, lambda n: [n, n]))
+
+
+# -- the expected bytes of every encoding, from RFC 5480 / SEC1 / RFC 5915 / RFC 5958
+
+OID_EC_PUBLIC_KEY = (1, 2, 840, 10045, 2, 1)
+OID_PRIME_FIELD = (1, 2, 840, 10045, 1, 1)
+
+
+def flen(p):
+    return (p.bit_length() + 7) // 8
+
+
+def spec_point(c, x, y, enc):
+    l = flen(int(c.curve.p()))
+    xs, ys = x.to_bytes(l, "big"), y.to_bytes(l, "big")
+    if enc == "raw":
+        return xs + ys
+    if enc == "uncompressed":
+        return b"\x04" + xs + ys
+    if enc == "hybrid":
+        return bytes([6 + (y & 1)]) + xs + ys
+    return bytes([2 + (y & 1)]) + xs
+
+
+def spec_params(c, ce, pe="uncompressed"):
+    if ce in (None, "named_curve"):
+        return d_oid(c.oid)
+    p = int(c.curve.p())
+    l = flen(p)
+    els = [d_int(1), d_tlv(0x30, d_oid(OID_PRIME_FIELD) + d_int(p)),
+           d_tlv(0x30, d_tlv(0x04, (int(c.curve.a()) % p).to_bytes(l, "big")) + d_tlv(0x04, (int(c.curve.b()) % p).to_bytes(l, "big"))),
+           d_tlv(0x04, spec_point(c, int(c.generator.x()), int(c.generator.y()), pe)), d_int(int(c.order))]
+    if c.curve.cofactor():
+        els.append(d_int(int(c.curve.cofactor())))
+    return d_tlv(0x30, b"".join(els))
+
+
+def spec_spki(c, x, y, pe, ce):
+    return d_tlv(0x30, d_tlv(0x30, d_oid(OID_EC_PUBLIC_KEY) + spec_params(c, ce, pe)) + d_tlv(0x03, b"\x00" + spec_point(c, x, y, pe)))
+
+
+def spec_sec1(c, k, x, y, pe, ce, with_params=True):
+    body = d_int(1) + d_tlv(0x04, k.to_bytes(flen(int(c.order)), "big"))
+    if with_params:
+        body += d_tlv(0xA0, spec_params(c, ce))
+    body += d_tlv(0xA1, d_tlv(0x03, b"\x00" + spec_point(c, x, y, pe)))
+    return d_tlv(0x30, body)
+
+
+def spec_pkcs8(c, k, x, y, pe, ce):
+    return d_tlv(0x30, d_int(1) + d_tlv(0x30, d_oid(OID_EC_PUBLIC_KEY) + spec_params(c, ce)) +
+                 d_tlv(0x04, spec_sec1(c, k, x, y, pe, ce, with_params=False)))
+
+
+def spec_pem(der, label):
+    b64 = base64.b64encode(der)
+    return (b"-----BEGIN " + label + b"-----\n" + b"".join(b64[i:i + 64] + b"\n" for i in range(0, len(b64), 64)) +
+            b"-----END " + label + b"-----\n")
+
+
+class Searcher:
+    def __init__(self, ctx):
+        self.ctx = ctx
+        self.I = impl()
+        self.r = ctx.rng
+        self.per_kind = {}
+        self.counts = {}
+        scale = 3 if ctx.brokens else 1
+        self.t_end = time.time() + ctx.budget(55, 700) * scale
+
+    def time_left(self):
+        return self.t_end - time.time()
+
+    def fail(self, kind, data, detail=""):
+        n = self.per_kind.get(kind, 0)
+        self.per_kind[kind] = n + 1
+        if n < 3:
+            self.ctx.fail(kind, data, detail)
+
+    def count(self, what):
+        self.counts[what] = self.counts.get(what, 0) + 1
+
+    def probe(self, decoder, f, data, expect, how, curve=None, same=None):
+        """run one decoder on one input.  expect: 'reject' (must raise a documented error),
+        'any' (documented error or some key), 'same' (must return a key equal to `same`)"""
+        self.ctx.case((decoder, data), trivial=(len(data) == 0))
+        self.count("%s:%s" % (decoder, how.split(" ")[0]))
+        info = {"decoder": decoder, "curve": curve, "input": data, "how": how}
+        try:
+            res = f(data)
+        except Exception as e:    # noqa
+            if not isinstance(e, self.I.documented):
+                info["exception"] = type(e).__name__
+                self.fail("undocumented-error:%s:%s" % (type(e).__name__, decoder), info,
+                          "%s raised %s(%s) on %s" % (decoder, type(e).__name__, str(e)[:80], how))
+            elif expect == "same":
+                info["exception"] = type(e).__name__
+                self.fail("roundtrip-raises:%s" % decoder, info, "%s: %s" % (type(e).__name__, str(e)[:120]))
+            return None
+        if expect == "reject":
+            self.fail("%s-accepted:%s" % (how.split(" ")[0], decoder), info, "returned %r" % (res,))
+        elif expect == "same" and not (res == same):
+            self.fail("roundtrip-differs:%s" % decoder, info, "decoded key differs from the encoded one")
+        return res
+
+    # -- keys ------------------------------------------------------------------------------
+
+    def keys_for(self, c, n_rand):
+        K, r = self.I.keys, self.r
+        n, bl = int(c.order), c.baselen
+        out = []
+        for _ in range(n_rand):
+            out.append(("random", r.randrange(1, n)))
+        out.append(("leading-zero-scalar", r.randrange(1, 1 << (8 * (bl - 1)))))
+        out.append(("two-leading-zero-bytes-scalar", r.randrange(1, 1 << (8 * (bl - 2)))))
+        lz = self.leading_zero_key(c)
+        if lz is not None:
+            out.append(("leading-zero-coordinate", lz))
+        return [(kind, K.SigningKey.from_secret_exponent(k, c)) for kind, k in out if 1 <= k < n]
+
+    def leading_zero_key(self, c):
+        """secret exponent whose public x or y starts with a zero byte (1 in 128): walk k, k+1, ..."""
+        l = flen(int(c.curve.p()))
+        lim = 1 << (8 * (l - 1))
+        k = self.r.randrange(1, int(c.order) - 2000)
+        pt = c.generator * k
+        g = c.generator
+        tries = self.ctx.budget(400, 1500)
+        for i in range(tries):
+            a = pt.to_affine()
+            if a.x() < lim or a.y() < lim:
+                self.ctx.dist["leading-zero-coordinate key found"] += 1
+                return k + i
+            pt = pt + g
+        return None
+
+    # -- one key through every encoding ----------------------------------------------------------
+
+    def encodings_of(self, c, sk):
+        """[(label, decoder name, decode fn, bytes, expected bytes, key to compare with)]"""
+        K = self.I.keys
+        vk = sk.verifying_key
+        k = int(sk.privkey.secret_multiplier)
+        x, y = int(vk.pubkey.point.x()), int(vk.pubkey.point.y())
+        out = []
+        for pe in ("raw", "uncompressed", "compressed", "hybrid"):
+            out.append(("point/%s" % pe, "VerifyingKey.from_string[%s]" % pe,
+                        (lambda b, pe=pe: K.VerifyingKey.from_string(b, c, valid_encodings=[pe])),
+                        vk.to_string(pe), spec_point(c, x, y, pe), vk))
+        out.append(("privstring", "SigningKey.from_string", (lambda b: K.SigningKey.from_string(b, c)),
+                    sk.to_string(), k.to_bytes(flen(int(c.order)), "big"), sk))
+        for pe in ("uncompressed", "compressed", "hybrid"):
+            for ce in ("named_curve", "explicit"):
+                out.append(("spki/%s/%s" % (pe, ce), "VerifyingKey.from_der", K.VerifyingKey.from_der,
+                            vk.to_der(pe, ce), spec_spki(c, x, y, pe, ce), vk))
+                out.append(("sec1/%s/%s" % (pe, ce), "SigningKey.from_der", K.SigningKey.from_der,
+                            sk.to_der(pe, "ssleay", ce), spec_sec1(c, k, x, y, pe, ce), sk))
+                out.append(("pkcs8/%s/%s" % (pe, ce), "SigningKey.from_der", K.SigningKey.from_der,
+                            sk.to_der(pe, "pkcs8", ce), spec_pkcs8(c, k, x, y, pe, ce), sk))
+        return out
+
+    def pems_of(self, c, sk):
+        K = self.I.keys
+        vk = sk.verifying_key
+        k = int(sk.privkey.secret_multiplier)
+        x, y = int(vk.pubkey.point.x()), int(vk.pubkey.point.y())
+        out = []
+        for pe, ce in (("uncompressed", "named_curve"), ("compressed", "explicit")):
+            out.append(("pem-spki/%s/%s" % (pe, ce), "VerifyingKey.from_pem", K.VerifyingKey.from_pem,
+                        vk.to_pem(pe, ce), spec_pem(spec_spki(c, x, y, pe, ce), b"PUBLIC KEY"), vk))
+            out.append(("pem-sec1/%s/%s" % (pe, ce), "SigningKey.from_pem", K.SigningKey.from_pem,
+                        sk.to_pem(pe, "ssleay", ce), spec_pem(spec_sec1(c, k, x, y, pe, ce), b"EC PRIVATE KEY"), sk))
+            out.append(("pem-pkcs8/%s/%s" % (pe, ce), "SigningKey.from_pem", K.SigningKey.from_pem,
+                        sk.to_pem(pe, "pkcs8", ce), spec_pem(spec_pkcs8(c, k, x, y, pe, ce), b"PRIVATE KEY"), sk))
+        return out
+
+    def roundtrip_and_bytes(self, c, kind, label, dec, f, enc, want, key):
+        if enc != want:
+            self.fail("encoding-bytes:%s" % label.split("/")[0],
+                      {"curve": c.name, "key": kind, "encoding": label, "got": enc, "expected": want},
+                      "%s of a %s key on %s differs from the independent DER/SEC1 encoder" % (label, kind, c.name))
+        self.probe(dec, f, enc, "same", "roundtrip %s (%s key)" % (label, kind), c.name, same=key)
+
+    def truncations_extensions(self, c, label, dec, f, enc, step=1):
+        for k in range(0, len(enc), step):
+            self.probe(dec, f, enc[:k], "reject", "truncation to %d of %d bytes of %s" % (k, len(enc), label), c.name)
+        for ext in (b"\x00", b"\x30", bytes([self.r.randrange(256)]), enc[-1:] * 2, b"\x00" * 16):
+            self.probe(dec, f, enc + ext, "reject", "extension by %d bytes of %s" % (len(ext), label), c.name)
+
+    def mutate(self, c, label, dec, f, enc, fraction=1.0):
+        idx = list(range(len(enc)))
+        if fraction < 1.0:
+            head = idx[:12]
+            rest = idx[12:]
+            self.r.shuffle(rest)
+            idx = sorted(head + rest[:max(4, int(len(rest) * fraction))])
+        for i in idx:
+            if self.time_left() < 0:
+                self.ctx.dist["mutation pass cut short by the time budget"] += 1
+                return False
+            for name, v in (("xor01", enc[i] ^ 1), ("xor80", enc[i] ^ 0x80), ("set00", 0), ("setFF", 0xFF)):
+                if v != enc[i]:
+                    self.probe(dec, f, enc[:i] + bytes([v]) + enc[i + 1:], "any",
+                               "mutation %s at %d of %s" % (name, i, label), c.name)
+        return True
+
+
+def all_point_encodings_check(S, c, vk):
+    """with every encoding enabled (the default): a truncated / extended string is rejected unless its
+    length is that of another encoding (the formats are told apart by length only)"""
+    K = S.I.keys
+    l = flen(int(c.curve.p()))
+    lens = {2 * l, 2 * l + 1, l + 1}
+    f = lambda b: K.VerifyingKey.from_string(b, c)    # noqa
+    for pe in ("raw", "uncompressed", "compressed", "hybrid"):
+        s = vk.to_string(pe)
+        S.probe("VerifyingKey.from_string", f, s, "same", "roundtrip point/%s (all encodings enabled)" % pe, c.name, same=vk)
+        for k in range(len(s)):
+            S.probe("VerifyingKey.from_string", f, s[:k], "any" if k in lens else "reject",
+                    "truncation to %d of %d bytes of point/%s" % (k, len(s), pe), c.name)
+        for ext in (b"\x00", b"\x04" * 2, b"\x00" * l):
+            S.probe("VerifyingKey.from_string", f, s + ext, "any" if len(s) + len(ext) in lens else "reject",
+                    "extension by %d bytes of point/%s" % (len(ext), pe), c.name)
+
+
+WITNESSES = [
+    # (decoder, input hex, theorem) - the inputs of the _refuted theorems of Properties/C19.v
+    ("VerifyingKey.from_der", "3017301306072a8648ce3d020106082a8648ce3d0301070301", "C19_errors_vk_from_der_refuted"),
+    ("SigningKey.from_der", "3003020101", "C19_errors_sk_from_der_refuted"),
+    ("Curve.from_der", "300702010130003000", "C19_errors_curve_from_der_refuted"),
+    ("der.remove_octet_string", "", "C19_errors_primitives_refuted"),
+    ("der.remove_constructed", "", "C19_errors_primitives_refuted"),
+    ("der.remove_bitstring[0]", "0301", "C19_errors_primitives_refuted"),
+    ("der.read_number", "", "C19_errors_primitives_refuted"),
+]
+
+
+def decoders(I):
+    K, d = I.keys, I.der
+    P = I.plugin
+    return {
+        "VerifyingKey.from_der": K.VerifyingKey.from_der,
+        "SigningKey.from_der": K.SigningKey.from_der,
+        "VerifyingKey.from_pem": K.VerifyingKey.from_pem,
+        "SigningKey.from_pem": K.SigningKey.from_pem,
+        "Curve.from_der": I.curves.Curve.from_der,
+        "der.remove_octet_string": d.remove_octet_string,
+        "der.remove_constructed": d.remove_constructed,
+        "der.remove_bitstring[0]": lambda b: d.remove_bitstring(b, 0),
+        "der.remove_sequence": d.remove_sequence,
+        "der.remove_integer": d.remove_integer,
+        "der.remove_object": d.remove_object,
+        "der.read_number": d.read_number,
+        "der.read_length": d.read_length,
+        "plugin.PublicEccKeyProxy.create_from_der_fmt": P.PublicEccKeyProxy.create_from_der_fmt,
+        "plugin.PublicEccKeyProxy.create_from_raw_fmt": P.PublicEccKeyProxy.create_from_raw_fmt,
+        "plugin.PrivateEccKeyProxy.create_from_der_fmt": P.PrivateEccKeyProxy.create_from_der_fmt,
+    }
+
+
+def search(ctx):
+    S = Searcher(ctx)
+    I, r = S.I, S.r
+    K = I.keys
+    DEC = decoders(I)
+    quick = ctx.quick() and not ctx.brokens
+    # 0. the witnesses of the _refuted theorems, replayed on the implementation
+    for dec, hx, thm in WITNESSES:
+        S.probe(dec, DEC[dec], bytes.fromhex(hx), "reject", "witness of %s" % thm)
+    # 0b. primitives on short malformed strings
+    for name in ("der.remove_sequence", "der.remove_integer", "der.remove_object", "der.remove_octet_string",
+                 "der.remove_constructed", "der.remove_bitstring[0]", "der.read_length", "der.read_number"):
+        tag = {"der.remove_sequence": 0x30, "der.remove_integer": 2, "der.remove_object": 6, "der.remove_octet_string": 4,
+               "der.remove_constructed": 0xA0, "der.remove_bitstring[0]": 3}.get(name)
+        for s in [b"", b"\x80", b"\x81", b"\x81\x7f", b"\x82\x00\x80", b"\xff"] + [rbytes(r, n) for n in (1, 2, 3, 4) for _ in range(8)]:
+            for cand in ([s] if tag is None else [s, bytes([tag]) + s]):
+                S.probe(name, DEC[name], cand, "any", "short-string %s" % cand.hex())
+    # 1. all 17 curves: round trips, bytes, truncations, extensions
+    plan = []
+    for c in I.W:
+        keys = S.keys_for(c, 1 if quick else 3)
+        for kind, sk in keys:
+            ctx.dist["key:" + kind] += 1
+            encs = S.encodings_of(c, sk)
+            for label, dec, f, enc, want, key in encs + S.pems_of(c, sk):
+                S.roundtrip_and_bytes(c, kind, label, dec, f, enc, want, key)
+            if kind in ("random", "leading-zero-coordinate") or not quick:
+                for label, dec, f, enc, want, key in encs:
+                    explicit = label.endswith("/explicit")
+                    if quick and (explicit and c.name not in HEAVY) and kind != "random":
+                        continue
+                    step = 1 if (not quick or not explicit or c.name == "NIST256p") else 7
+                    S.truncations_extensions(c, label, dec, f, enc, step)
+                    plan.append((c, kind, label, dec, f, enc))
+            all_point_encodings_check(S, c, sk.verifying_key)
+            # PEM: cutting into the base64 payload must be rejected; the mutation pass is below
+            for label, dec, f, pem, want, key in S.pems_of(c, sk)[:3 if quick else 6]:
+                end_payload = pem.index(b"\n-----END")
+                for k in sorted(set(r.randrange(1, end_payload) for _ in range(8 if quick else 40)) | {end_payload - 1}):
+                    S.probe(dec, f, pem[:k], "reject", "truncation to %d of %d bytes of %s" % (k, len(pem), label), c.name)
+                plan.append((c, kind, label, dec, f, pem))
+        ctx.sample({"curve": c.name, "key": keys[0][0], "spki": keys[0][1].verifying_key.to_der()})
+    # 2. bec2format through the plug-in (P-256)
+    search_plugin(S)
+    # 3. structural malformations of named-curve key files (elements deleted / emptied / shortened)
+    for c in I.W:
+        if quick and c.name not in HEAVY:
+            continue
+        sk = K.SigningKey.from_secret_exponent(r.randrange(1, int(c.order)), c)
+        for label, dec, f, enc in (("spki", "VerifyingKey.from_der", K.VerifyingKey.from_der, sk.verifying_key.to_der()),
+                                   ("sec1", "SigningKey.from_der", K.SigningKey.from_der, sk.to_der()),
+                                   ("pkcs8", "SigningKey.from_der", K.SigningKey.from_der, sk.to_der(format="pkcs8")),
+                                   ("ecparameters", "Curve.from_der", I.curves.Curve.from_der, c.to_der("explicit"))):
+            for how, m in structural_variants(enc):
+                S.probe(dec, f, m, "any", "structure %s of %s" % (how, label), c.name)
+    # 4. every single-byte mutation (xor 01, xor 80, set 00, set FF): named encodings first, then
+    #    explicit parameters and PEM, until the time budget is used up
+    order = sorted(range(len(plan)), key=lambda i: (plan[i][2].endswith("/explicit") or plan[i][2].startswith("pem"),
+                                                    plan[i][0].name not in HEAVY, r.random()))
+    done = 0
+    for i in order:
+        c, kind, label, dec, f, enc = plan[i]
+        heavy = label.endswith("/explicit") or label.startswith("pem")
+        fraction = 1.0 if not quick else (0.08 if heavy else (1.0 if c.name in HEAVY and label.split("/")[1:2] != ["hybrid"] else 0.15))
+        if not S.mutate(c, label, dec, f, enc, fraction):
+            break
+        done += 1
+    ctx.extra["mutation_passes_done"] = "%d of %d encodings" % (done, len(plan))
+    # 5. OpenSSL in both directions (thorough tier, only when a binary exists)
+    if not ctx.quick() or os.environ.get("VERIF_C19_OPENSSL"):
+        search_openssl(S)
+    ctx.extra["search_counts"] = {k: v for k, v in sorted(S.counts.items())}
+    ctx.extra["rule"] = (
+        "correspondence: every der.py primitive on generated valid encodings (lengths 0,1,127,128,255,256,65535,65536 and "
+        "beyond, integers with the high bit set / leading zeros, OIDs with large arcs, bit strings in all three calling "
+        "conventions) plus truncations, extensions, flipped tag/length bytes and empty input; util number/string codecs; "
+        "point, curve-parameter, public and private key codecs on all 17 curves with the modular square root and the scalar "
+        "multiplication recorded from the implementation's own run as oracle tables; quick tier keeps <= 40/60 cases per "
+        "category. search (implementation only): per curve a random key, keys with leading-zero scalar bytes and a key with a "
+        "leading-zero coordinate: bytes of every encoding against an independent DER/SEC1 encoder, round trip through "
+        "raw/uncompressed/compressed/hybrid, SPKI / SEC1 / PKCS#8 x named/explicit, PEM; every truncation and 5 extensions "
+        "must be rejected with a documented error; single-byte mutations (xor01, xor80, set00, setFF) and structural "
+        "malformations must give a documented error or a key; plug-in raw<->DER; OpenSSL both ways in the thorough tier. "
+        "non-trivial = non-empty input; distinct by (decoder, input)")
+
+
+def search_plugin(S):
+    I, r = S.I, S.r
+    K = I.keys
+    P = I.plugin.PublicEccKeyProxy
+    c = I.curves.NIST256p
+    header = d_tlv(0x30, d_tlv(0x30, d_oid(OID_EC_PUBLIC_KEY) + d_oid(c.oid)) + d_tlv(0x03, b"\x00\x04" + bytes(64)))[:-64]
+    if len(header) != 27:
+        S.ctx.broken("search: the independent P-256 SubjectPublicKeyInfo prefix is not 27 bytes", header.hex())
+    for kind, sk in S.keys_for(c, 3 if S.ctx.quick() else 20):
+        vk = sk.verifying_key
+        raw = vk.to_string()
+        x, y = int(vk.pubkey.point.x()), int(vk.pubkey.point.y())
+        if raw != x.to_bytes(32, "big") + y.to_bytes(32, "big"):
+            S.fail("encoding-bytes:raw64", {"key": kind, "got": raw}, "raw format is not X||Y, 32 bytes each")
+        S.ctx.case(("plugin", raw))
+        try:
+            k1 = P.create_from_raw_fmt(raw)
+            der = k1.to_der_fmt()
+            back = k1.to_raw_bin_fmt()
+            k2 = P.create_from_der_fmt(header + raw)
+        except Exception as e:   # noqa
+            S.fail("plugin-roundtrip-raises", {"key": kind, "raw": raw}, "%s: %s" % (type(e).__name__, e))
+            continue
+        if back != raw or k1.public_key != vk or k2.public_key != vk:
+            S.fail("plugin-raw-roundtrip", {"key": kind, "raw": raw, "back": back}, "create_from_raw_fmt / to_raw_bin_fmt is not the identity")
+        if der != header + raw or der != spec_spki(c, x, y, "uncompressed", None):
+            S.fail("plugin-header27", {"key": kind, "der": der, "expected": header + raw},
+                   "to_der_fmt() is not the RFC 5480 P-256 header (27 bytes) followed by X||Y")
+        try:
+            pk = I.plugin.PrivateEccKeyProxy.create_from_der_fmt(sk.to_der())
+            if pk.private_key != sk or pk.public_key.to_raw_bin_fmt() != raw:
+                S.fail("plugin-private-roundtrip", {"key": kind}, "private key proxy does not return the key")
+        except Exception as e:   # noqa
+            S.fail("plugin-roundtrip-raises", {"key": kind, "der": sk.to_der()}, "%s: %s" % (type(e).__name__, e))
+        f = P.create_from_raw_fmt
+        for k in range(len(raw)):
+            S.probe("plugin.PublicEccKeyProxy.create_from_raw_fmt", f, raw[:k], "reject", "truncation to %d of 64 bytes of raw64" % k, c.name)
+        for ext in (b"\x00", b"\x04", bytes(32)):
+            S.probe("plugin.PublicEccKeyProxy.create_from_raw_fmt", f, raw + ext, "reject", "extension by %d bytes of raw64" % len(ext), c.name)
+        S.mutate(c, "raw64", "plugin.PublicEccKeyProxy.create_from_raw_fmt", f, raw, 0.3 if S.ctx.quick() else 1.0)
+
+
+def find_openssl():
+    for cand in ("/root/miniconda/bin/openssl", shutil.which("openssl")):
+        if cand and os.path.exists(cand):
+            return cand
+    return None
+
+
+def search_openssl(S):
+    """byte compatibility with OpenSSL in both directions; silently skipped when there is no binary"""
+    I, r, ctx = S.I, S.r, S.ctx
+    K = I.keys
+    exe = find_openssl()
+    if exe is None:
+        ctx.notes.append("openssl binary not found: byte compatibility with OpenSSL not exercised")
+        return
+    tmp = tempfile.mkdtemp(prefix="c19ossl")
+
+    def ossl(args, data=None):
+        p = subprocess.run([exe] + args, input=data, stdout=subprocess.PIPE, stderr=subprocess.PIPE, timeout=60, cwd=tmp)
+        return p.returncode, p.stdout, p.stderr.decode("utf-8", "replace")[-300:]
+    rc, out, _ = ossl(["version"])
+    if rc != 0:
+        ctx.notes.append("openssl binary does not run: skipped")
+        shutil.rmtree(tmp, ignore_errors=True)
+        return
+    ctx.extra["openssl"] = out.decode().strip()
+    rc, out, _ = ossl(["ecparam", "-list_curves"])
+    listed = out.decode("utf-8", "replace")
+    curves = [c for c in I.W if c.openssl_name and (c.openssl_name + " ") in listed.replace(":", " ")]
+    n_ok = 0
+    try:
+        for c in curves:
+            if S.time_left() < -120:
+                break
+            name = c.openssl_name
+            sk = K.SigningKey.from_secret_exponent(r.randrange(1, int(c.order)), c)
+            vk = sk.verifying_key
+            # ecdsa -> openssl: public key (named curve) is re-emitted byte for byte
+            for pe in ("uncompressed", "compressed", "hybrid"):
+                der = vk.to_der(pe)
+                rc, out, err = ossl(["pkey", "-pubin", "-inform", "DER", "-pubout", "-outform", "DER",
+                                     "-ec_conv_form", pe], der)
+                ctx.case(("openssl-pub", c.name, pe))
+                if rc != 0 or out != der:
+                    S.fail("openssl-rejects-or-differs:spki", {"curve": c.name, "encoding": pe, "der": der, "openssl": out},
+                           "openssl pkey -pubin rc=%d %s" % (rc, err))
+                else:
+                    n_ok += 1
+            # explicit parameters are accepted by openssl
+            rc, out, err = ossl(["pkey", "-pubin", "-inform", "DER", "-pubout", "-outform", "DER"], vk.to_der("uncompressed", "explicit"))
+            if rc != 0:
+                S.fail("openssl-rejects-or-differs:spki-explicit", {"curve": c.name, "der": vk.to_der("uncompressed", "explicit")}, err)
+            # private keys: SEC1 and PKCS#8 -> openssl derives the same public key
+            for fmt in ("ssleay", "pkcs8"):
+                pem = sk.to_pem(format=fmt)
+                rc, out, err = ossl(["pkey", "-pubout", "-outform", "DER"], pem)
+                ctx.case(("openssl-priv", c.name, fmt))
+                if rc != 0 or out != vk.to_der():
+                    S.fail("openssl-rejects-or-differs:%s" % fmt, {"curve": c.name, "pem": pem, "openssl": out},
+                           "openssl pkey rc=%d %s" % (rc, err))
+                else:
+                    n_ok += 1
+            # openssl -> ecdsa
+            rc, sec1_pem, err = ossl(["ecparam", "-name", name, "-genkey", "-noout"])
+            if rc != 0:
+                ctx.notes.append("openssl cannot generate a key on %s: %s" % (name, err))
+                continue
+            rc, pub_der, _ = ossl(["pkey", "-pubout", "-outform", "DER"], sec1_pem)
+            rc2, p8_pem, _ = ossl(["pkcs8", "-topk8", "-nocrypt"], sec1_pem)
+            rc3, sec1_der, _ = ossl(["ec", "-outform", "DER"], sec1_pem)
+            ctx.case(("openssl-gen", c.name, sec1_pem))
+            try:
+                k1 = K.SigningKey.from_pem(sec1_pem)
+                k2 = K.SigningKey.from_pem(p8_pem) if rc2 == 0 else k1
+                v1 = K.VerifyingKey.from_der(pub_der)
+                if not (k1 == k2 and k1.verifying_key == v1 and k1.curve.name == c.name):
+                    S.fail("openssl-key-differs", {"curve": c.name, "pem": sec1_pem}, "SEC1 / PKCS#8 / SPKI of one OpenSSL key decode to different keys")
+                if v1.to_der() != pub_der:
+                    S.fail("openssl-reencode-differs:spki", {"curve": c.name, "openssl": pub_der, "ecdsa": v1.to_der()}, "re-encoded public key differs")
+                if rc3 == 0 and k1.to_der() != sec1_der:
+                    S.fail("openssl-reencode-differs:sec1", {"curve": c.name, "openssl": sec1_der, "ecdsa": k1.to_der()}, "re-encoded SEC1 key differs")
+                for form in ("compressed", "hybrid"):
+                    rc4, d4, _ = ossl(["pkey", "-pubout", "-outform", "DER", "-ec_conv_form", form], sec1_pem)
+                    if rc4 == 0:
+                        if K.VerifyingKey.from_der(d4) != v1 or v1.to_der(form) != d4:
+                            S.fail("openssl-reencode-differs:spki-%s" % form, {"curve": c.name, "openssl": d4}, "")
+                rc5, d5, _ = ossl(["pkey", "-pubout", "-outform", "DER", "-ec_param_enc", "explicit"], sec1_pem)
+                if rc5 == 0 and K.VerifyingKey.from_der(d5) != v1:
+                    S.fail("openssl-key-differs", {"curve": c.name, "der": d5}, "explicit-parameter key of OpenSSL decodes to another key")
+                n_ok += 1
+            except Exception as e:   # noqa
+                S.fail("openssl-key-rejected", {"curve": c.name, "pem": sec1_pem, "exception": type(e).__name__}, str(e)[:200])
+            # asn1parse accepts what we write
+            rc, out, err = ossl(["asn1parse", "-inform", "DER"], sk.to_der(format="pkcs8"))
+            if rc != 0:
+                S.fail("openssl-rejects-or-differs:asn1parse", {"curve": c.name, "der": sk.to_der(format="pkcs8")}, err)
+    finally:
+        shutil.rmtree(tmp, ignore_errors=True)
+    ctx.extra["openssl_checks_passed"] = n_ok
+    ctx.dist["openssl curves"] += len(curves)
+
+
+def replay(ctx, data):
+    I = impl()
+    DEC = decoders(I)
+    K = I.keys
+    rc = 0
+    for f in data.get("fails", []):
+        d = f["data"]
+        print("kind:", f["kind"])
+        print(" detail:", f["detail"])
+        dec = d.get("decoder")
+        inp = d.get("input")
+        if dec is None or inp is None:
+            print(" (no decoder/input recorded: re-run `bin/check C19` for this kind)")
+            rc = 1
+            continue
+        b = bytes.fromhex(inp["hex"]) if isinstance(inp, dict) else inp
+        fn = DEC.get(dec)
+        if fn is None and dec.startswith("VerifyingKey.from_string"):
+            cur = [c for c in I.W if c.name == d.get("curve")][0]
+            ve = dec[dec.index("[") + 1:-1].split(",") if "[" in dec else None
+            fn = lambda s: K.VerifyingKey.from_string(s, cur, valid_encodings=ve)     # noqa
+        if fn is None and dec == "SigningKey.from_string":
+            cur = [c for c in I.W if c.name == d.get("curve")][0]
+            fn = lambda s: K.SigningKey.from_string(s, cur)    # noqa
+        print(" decoder:", dec, " curve:", d.get("curve"), " how:", d.get("how"))
+        print(" input:", b.hex())
+        try:
+            res = fn(b)
+            print(" implementation -> returned", repr(res)[:200])
+            bad = f["kind"].split(":")[0].endswith("-accepted")
+        except Exception as e:   # noqa
+            print(" implementation -> %s: %s" % (type(e).__name__, str(e)[:200]))
+            bad = not isinstance(e, I.documented) or f["kind"].startswith("roundtrip")
+        print(" documented errors: UnexpectedDER, MalformedPointError, ValueError (and subclasses), UnknownCurveError")
+        print(" reproduces:", bad)
+        rc |= bool(bad)
+    for b in data.get("broken", []):
+        print("broken:", b["what"])
+        print(b["detail"][:1500])
+        rc = 1
+    return 1 if rc else 0
